@@ -21,8 +21,10 @@ Proof.
   congruence.
 Qed.
 
-Definition canonical3 (fuel : nat) (order : list N) : Prop :=
-  let m := fst (build3 fuel order) in let hs := snd (build3 fuel order) in
+(* "for the managers built by the model over three variables: the handle table is a bijection between
+   the 256 truth tables and 256 handles, each handle denotes its table, and apply / negate on any
+   operands return exactly the handle of the result's table" *)
+Definition canonical3 (fuel : nat) (m : mgr) (hs : list N) : Prop :=
   let h := fun t : N => nth (N.to_nat t) hs 0 in
   length hs = 256%nat /\ NoDup hs /\
   (forall t k, t < 256 -> k < 8 -> den m (h t) (sigma_of k) = N.testbit t k) /\
@@ -33,10 +35,9 @@ Definition canonical3 (fuel : nat) (order : list N) : Prop :=
 Lemma fa_elim : forall {A} (f : A -> bool) l, forallb f l = true -> forall x, In x l -> f x = true.
 Proof. intros A f l H. apply forallb_forall. exact H. Qed.
 
-Lemma sweep3_sound : forall fuel order, sweep3 fuel order = true -> canonical3 fuel order.
+Lemma check3_sound : forall fuel m hs, check3 fuel m hs = true -> canonical3 fuel m hs.
 Proof.
-  intros fuel order H. unfold sweep3 in H. unfold canonical3.
-  destruct (build3 fuel order) as [m hs]. cbn [fst snd].
+  intros fuel m hs H. unfold check3 in H. unfold canonical3.
   apply andb_prop in H as [H H4]. apply andb_prop in H as [H H3]. apply andb_prop in H as [H1 H2].
   pose proof (fa_elim _ _ H3) as H3'. pose proof (fa_elim _ _ H4) as H4'. clear H3 H4.
   split; [apply Nat.eqb_eq; exact H1|]. split; [apply nodupb_NoDup; exact H2|]. split; [|split].
@@ -53,9 +54,10 @@ Proof.
     clearbody res. destruct res as [st [r| | |]]; try discriminate.
     apply N.eqb_eq in P. subst r. exists st. reflexivity.
 Qed.
-(* 2 x 65536 applies + 256 negates on the model's manager, by the kernel's VM *)
-Lemma sweep_012 : sweep3 FUEL3 [0; 1; 2] = true.
-Proof. vm_cast_no_check (eq_refl true). Qed.
 
-Lemma canonical3_012 : canonical3 FUEL3 [0; 1; 2].
-Proof. apply sweep3_sound. exact sweep_012. Qed.
+(* 2 x 65536 applies + 256 negates on the model's manager, by the kernel's VM *)
+Lemma sweep_012 : check3 FUEL3 (m3 [0; 1; 2]) (h3 [0; 1; 2]) = true.
+Proof. vm_cast_no_check (@eq_refl bool true). Qed.
+
+Lemma canonical3_012 : canonical3 FUEL3 (m3 [0; 1; 2]) (h3 [0; 1; 2]).
+Proof. exact (check3_sound FUEL3 (m3 [0; 1; 2]) (h3 [0; 1; 2]) sweep_012). Qed.
